@@ -32,10 +32,12 @@ SHIMS = ["connection_manager._CONNECTION_MANAGER = namespace with a real _Microg
          "generated engines are not started: their post-fix steps are applied by the real FormulaStep.apply to a stack of symbolic readings",
          "math.isnan/isinf dispatch on proxies"]
 ASSUMPTIONS = [
-    "every leaf device has an arbitrary real power; a meter reads the sum of its children plus an arbitrary unmetered load, except meters dedicated to one device type",
+    "every leaf device has an arbitrary real power; a meter reads the sum of its children plus an arbitrary unmetered load, except meters dedicated to one device type "
+    "(a grid meter, i.e. the single successor of the grid, is never 'dedicated': the repo's own is_*_meter predicates exclude it)",
     "topologies are ENUMERATED (concrete) from a grammar: grid -> forest of {meter[children], battery inverter+battery, PV inverter, EV charger}, CHP only directly under a meter "
     "dedicated to CHPs (CHPPowerFormula raises by design otherwise); sibling order canonicalised; accepted by _MicrogridComponentGraph validation",
-    "fallback mode: every primary with a fallback formula is replaced by the value of its generated fallback formula (primary missing), all other readings valid",
+    "three modes per topology: allow_fallback=False; allow_fallback=True evaluated on the primaries; allow_fallback=True with every primary that has a fallback "
+    "formula replaced by the value of its generated fallback formula (primary missing)",
 ]
 BOUNDS = {"quick": "all topologies with <= 7 components (incl. grid and batteries); device powers symbolic", "thorough": "<= 8 components"}
 OUTSIDE = "graphs outside the grammar (several batteries per inverter, inverters shared by batteries, cycles); stream timing (C06/C19); larger graphs"
@@ -174,12 +176,13 @@ def _tup(x):
     return tuple(_tup(y) for y in x) if isinstance(x, (list, tuple)) else x
 
 
-def make_forest(forest, allow_fallback):
+def make_forest(forest, allow_fallback, eval_fallback=None):
     """One explicit topology (used for committed witnesses)."""
-    return make(0, 0, 1, allow_fallback, topos=[_tup(forest)])
+    return make(0, 0, 1, allow_fallback, topos=[_tup(forest)], eval_fallback=eval_fallback)
 
 
-def make(nmax, lo, hi, allow_fallback, reach=False, topos=None):
+def make(nmax, lo, hi, allow_fallback, reach=False, topos=None, eval_fallback=None):
+    eval_fallback = allow_fallback if eval_fallback is None else eval_fallback
     topos = topologies(nmax)[lo:hi] if topos is None else topos
 
     def fn(ex):
@@ -204,7 +207,11 @@ def make(nmax, lo, hi, allow_fallback, reach=False, topos=None):
             s = 0.0
             for kid in info[("kids", me)]:
                 s = s + rd(kid)
-            if not dedicated(n):
+            # a single grid successor is the grid meter: the repo never classifies it as a device meter, so it may carry load
+            # (except a CHP's meter: CHPPowerFormula reads the meter in front of a CHP, "metered CHPs" in the property)
+            # In fallback mode the generated fallback of such a grid meter is the sum of its devices, which cannot know the
+            # load: there the grid meter is treated as dedicated too (fallback exactness is C19's subject, not C12's).
+            if not (dedicated(n) and (len(forest) > 1 or me not in roots or n[1][0][0] == "C" or eval_fallback)):
                 ld = ex.real(f"load{me}")
                 s = s + ld
                 tot["L"] = tot["L"] + E(ld)
@@ -223,7 +230,7 @@ def make(nmax, lo, hi, allow_fallback, reach=False, topos=None):
             if label == "ev":
                 ids = set(info.get("evs", [])) or None
             eng = cls("ns", reg, snd, FormulaGeneratorConfig(component_ids=ids, allow_fallback=allow_fallback)).generate()
-            vals[label] = E(evaluate(eng, truth, allow_fallback))
+            vals[label] = E(evaluate(eng, truth, eval_fallback))
         if reach:
             ex.check(False, "reach")
             return
@@ -248,9 +255,11 @@ def instances(tier):
     out = [I("reach:n4", "make", (4, 0, len(topologies(4)), False, True), "reachability twin", budget_s=60, validate_every=0)]
     nchunks = 16 if tier == "quick" else 64
     step = (n + nchunks - 1) // nchunks
-    for fb in (False, True):
+    for fb, ev, tag in ((False, False, "nofb"), (True, False, "fb-primary"), (True, True, "fb-fallback")):
         for ci, lo in enumerate(range(0, n, step)):
             hi = min(n, lo + step)
-            out.append(I(f"n{nmax}-fb{int(fb)}-chunk{ci}", "make", (nmax, lo, hi, fb), f"topologies {lo}..{hi - 1} of {n} with <= {nmax} components, allow_fallback={fb}",
+            out.append(I(f"n{nmax}-{tag}-chunk{ci}", "make", (nmax, lo, hi, fb, False, None, ev),
+                         f"topologies {lo}..{hi - 1} of {n} with <= {nmax} components, allow_fallback={fb}, "
+                         + ("primaries missing: fallback formulas evaluated" if ev else "all primaries valid"),
                          budget_s=600, validate_every=20, programs=hi - lo))
     return out
